@@ -323,8 +323,11 @@ ProcProposal(cs, c, e, g, recEpoch, nm) ==
       [] E.pkind = "leave" /\ amAdmin ->
             IF cs.g[g].pend # NoE \/ c \in PropRemoves(cs.g[g].props \cup {Pid(e)})
             THEN \* commit_to_pending_proposals fails (a pending commit exists, or the queue holds the
-                 \* committer's own removal); the proposal stays queued although the call is refused
-                 FailUnprocessable([cs EXCEPT !.g[g].props = @ \cup {Pid(e)}], e, g, recEpoch)
+                 \* committer's own removal); the proposal stays queued and is reported as pending
+                 \* (before the fix -- deviation RefusedLeaveStaysQueued -- the call was refused although it had queued it)
+                 IF "RefusedLeaveStaysQueued" \in Dev
+                 THEN FailUnprocessable([cs EXCEPT !.g[g].props = @ \cup {Pid(e)}], e, g, recEpoch)
+                 ELSE Ret(SetProc([cs EXCEPT !.g[g].props = @ \cup {Pid(e)}], e, "processed", g, cur), "PendingProposal")
             ELSE LET cs1 == [cs EXCEPT !.g[g].props = @ \cup {Pid(e)}]
                      cs2 == [cs1 EXCEPT !.g[g].pend = nm.name, !.g[g].sentH = @ + 1,
                                         !.out = Append(@, [name |-> nm.name, kind |-> "commit", g |-> g, author |-> c, gen |-> cs.g[g].sentH,
